@@ -6,12 +6,12 @@ Open Scope Z_scope.
 
 Definition b2z (b : bool) : Z := if b then 1 else 0.
 Definition code_skind (k : skind) : Z :=
-  match k with KHolder => 1 | KCparty => 2 | KSecret => 3 | KPreimage => 4 end.
+  match k with KHolder => 1 | KCparty => 2 | KSecret => 3 | KPreimage => 4 | KShutdownScript => 5 end.
 Definition obs_watch (o : list out) : list (Z * list Z) :=
   flat_map (fun x => match x with OWatch u => [(uid u, map code_skind (usteps u))] | _ => [] end) o.
 Definition obs_rel (o : list out) : list Z :=
   flat_map (fun x => match x with
-                     | ORel RRaa _ => [1] | ORel RCs _ => [2] | ORel RChannelReady _ => [3]
+                     | ORel RRaa _ => [1] | ORel RCs _ => [2] | ORel RChannelReady _ => [3] | ORel RClosingSigned _ => [5]
                      | _ => [] end) o.
 Definition obs_bcast (o : list out) : Z :=
   Z.of_nat (List.length (filter (fun x => match x with ORel RFundingBroadcast _ => true | _ => false end) o)).
